@@ -123,6 +123,10 @@ def run(rep, tier="quick", replay=None, evidence_dir=None):
                 names = callee_names(t["func"])
                 rep.ob("C19.R2", "%s uses %s only through set/get_or_init/get" % (b.path, sp), bool(names) and names[0] in ONCE_OK,
                        "unexpected operation on a setting cell: %s" % names, b.loc(cbi))
+                if names and names[0] in ("std::sync::OnceLock::<T>::get", "std::sync::OnceLock::<T>::wait"):
+                    rep.ob("C19.R2", "%s reads %s in a way that freezes the default (get_or_init), not by peeking" % (b.path, sp), False,
+                           "a read through OnceLock::get that falls back to a default does not install it: a later setter call succeeds and changes the value in force after it was already used",
+                           b.loc(cbi))
                 if names and names[0].endswith("get_or_init"):
                     # closure argument: captures a parameter (user value) or nothing (default installer)?
                     cl = t["args"][1] if len(t["args"]) > 1 else {}
@@ -156,6 +160,8 @@ def run(rep, tier="quick", replay=None, evidence_dir=None):
             if not any(n in lg for n in names):
                 continue
             n4 += 1
+            if not t["args"]:
+                continue  # parameter-free reader: how it reads the cell is R2's obligation
             a = t["args"][0]
             is_default = a.get("k") == "const" and a.get("item", "").endswith("DEFAULT_MAX_ALLOCATION_BYTES")
             forwards = a.get("k") in ("copy", "move") and (b.resolve_operand(a) or (0,))[0] in range(1, b.argc + 1) \
@@ -183,6 +189,19 @@ def run(rep, tier="quick", replay=None, evidence_dir=None):
                 op = {"Le": "Ge", "Lt": "Gt", "Ge": "Le", "Gt": "Lt"}[op]
             rep.ob("C19.R4", "%s compares value %s limit" % (b.path, "<= (accept) / > (reject)"), op in ("Le", "Gt"),
                    "boundary: lengths up to the limit must be accepted and lengths above it rejected (found `value %s limit`)" % op, b.loc(bi, st.get("ln")))
+
+    # ---------- R6: the limit in force is the one every decoder applies ----------
+    # C05's provenance rules (every data-declared length / count in the reading set reaches an allocator or a loop
+    # counter only through a limit guard) are the structural content of this clause; their verdicts are imported.
+    rep.rule("C19.R6", "uniform enforcement: every declared length or count in the reading set passes a limit guard (C05.R1/R2/R4 instances)")
+    sub = common.Report("C05", tier, 0)
+    c05.run(sub, tier=tier, collect_only=True)
+    n6 = 0
+    for o in sub.obligations:
+        if o["rule"] in ("C05.R1", "C05.R2", "C05.R4"):
+            n6 += 1
+            rep.ob("C19.R6", "[%s] %s" % (o["rule"], o["instance"]), o["ok"], o["detail"], o["loc"])
+    rep.floor("C19.R6", "imported length/count guard obligations", n6, 30)
 
     rep.not_decided = ["that std::sync::OnceLock itself is correct (trusted)", "run-time interleavings (follow from the type-level facts)"]
     return common.finish(rep, level="other",
